@@ -75,6 +75,7 @@ type Conn struct {
 	ReadErr       string
 	HandlerPanic  string
 	Reached       bool // request reached the server handler
+	Handed        bool // a response (headers + body) was handed to the client
 	HeadersAtStep int
 }
 
@@ -88,6 +89,57 @@ type Net struct {
 	Script  func(c *Conn) *Outcome // consulted first; nil result = no script for this request
 	OnConn  func(c *Conn)          // called when an exchange starts (before delivery)
 	OnWrite func(c *Conn, p []byte)
+
+	stallMu    sync.Mutex
+	stallCh    chan struct{}
+	stallUntil time.Duration
+}
+
+// Stall makes the network stop delivering for d of simulated time (or until Unstall): requests are
+// not delivered and server-side writes do not complete.
+func (n *Net) Stall(d time.Duration) {
+	n.stallMu.Lock()
+	defer n.stallMu.Unlock()
+	if n.stallCh == nil {
+		n.stallCh = make(chan struct{})
+		n.stallUntil = n.s.Now() + d
+	}
+}
+
+// Unstall ends a stall.
+func (n *Net) Unstall() {
+	n.stallMu.Lock()
+	defer n.stallMu.Unlock()
+	if n.stallCh != nil {
+		close(n.stallCh)
+		n.stallCh = nil
+	}
+}
+
+// waitStall blocks the calling task while the network is stalled (or until ctx ends, if given).
+func (n *Net) waitStall(ctx context.Context) {
+	n.stallMu.Lock()
+	ch, until := n.stallCh, n.stallUntil
+	n.stallMu.Unlock()
+	if ch == nil || n.s.dead.Load() {
+		return
+	}
+	d := until - n.s.Now()
+	if d <= 0 {
+		return
+	}
+	tm := time.NewTimer(d)
+	defer tm.Stop()
+	var done <-chan struct{}
+	if ctx != nil {
+		done = ctx.Done()
+	}
+	select {
+	case <-ch:
+	case <-tm.C:
+	case <-done:
+	}
+	n.s.Yield("net.stall#over")
 }
 
 func newNet(s *Sim) *Net {
@@ -205,7 +257,7 @@ func (n *Net) RoundTrip(req *http.Request) (*http.Response, error) {
 	if out == nil {
 		f := n.Faults
 		w := []int{100, f.Refuse, f.ResetConn, f.EOFConn, f.Timeout, f.Delay}
-		d := s.Point(fmt.Sprintf("net.send c%d %s %s", c.ID, req.Method, req.URL.Path), w)
+		d := s.IOPoint(fmt.Sprintf("net.send c%d %s %s", c.ID, req.Method, req.URL.Path), w, c)
 		switch d {
 		case 1:
 			out = &Outcome{Kind: "refuse"}
@@ -237,6 +289,11 @@ func (n *Net) RoundTrip(req *http.Request) (*http.Response, error) {
 		}
 		s.Yield("net.delay#done")
 	}
+	n.waitStall(req.Context())
+	if err := req.Context().Err(); err != nil {
+		c.Outcome = "cancelled"
+		return nil, err
+	}
 	if h == nil && (out == nil || out.Kind == "") {
 		out = &Outcome{Kind: "refuse"}
 	}
@@ -256,6 +313,15 @@ func (n *Net) RoundTrip(req *http.Request) (*http.Response, error) {
 		return nil, netErr(out.Kind, req.URL.Host)
 	}
 
+	// an armed fault may have torn the connection down at the send point: nothing is delivered
+	c.mu.Lock()
+	killed := c.serverErr
+	c.mu.Unlock()
+	if killed != nil {
+		c.Outcome = "reset"
+		s.Fault("net.reset")
+		return nil, killed
+	}
 	// deliver to the server
 	srvCtx, cancel := context.WithCancel(context.Background())
 	c.srvCancel = cancel
@@ -354,6 +420,9 @@ func (n *Net) RoundTrip(req *http.Request) (*http.Response, error) {
 }
 
 func (n *Net) response(req *http.Request, c *Conn) *http.Response {
+	c.mu.Lock()
+	c.Handed = true
+	c.mu.Unlock()
 	return &http.Response{
 		Status:        fmt.Sprintf("%d %s", c.Status, http.StatusText(c.Status)),
 		StatusCode:    c.Status,
@@ -450,8 +519,9 @@ func (w *respWriter) Write(p []byte) (int, error) {
 	f := c.n.Faults
 	d := 0
 	if !s.dead.Load() {
-		d = s.Point(fmt.Sprintf("net.write c%d +%d", c.ID, len(p)), []int{1000, f.ResetMid, f.CutMid})
+		d = s.IOPoint(fmt.Sprintf("net.write c%d +%d", c.ID, len(p)), []int{1000, f.ResetMid, f.CutMid}, c)
 	}
+	c.n.waitStall(nil)
 	switch d {
 	case 1:
 		s.Fault("net.reset_mid")
@@ -483,8 +553,9 @@ func (w *respWriter) Flush() {
 	c := w.c
 	s := c.n.s
 	if !s.dead.Load() {
-		s.Yield(fmt.Sprintf("net.flush c%d", c.ID))
+		s.IOPoint(fmt.Sprintf("net.flush c%d", c.ID), nil, c)
 	}
+	c.n.waitStall(nil)
 	c.mu.Lock()
 	if !c.wroteHeader {
 		c.wroteHeader = true
@@ -552,9 +623,16 @@ func (b *respBody) Read(p []byte) (int, error) {
 			c.mu.Unlock()
 			d := 0
 			if !s.dead.Load() {
-				d = s.Point(fmt.Sprintf("net.read c%d", c.ID), []int{100, c.n.Faults.ShortRead, c.n.Faults.ShortRead})
+				d = s.IOPoint(fmt.Sprintf("net.read c%d", c.ID), []int{100, c.n.Faults.ShortRead, c.n.Faults.ShortRead}, c)
 			}
 			c.mu.Lock()
+			if c.serverErr != nil {
+				// the connection was torn down at this very point: unread data is gone with it
+				err := c.serverErr
+				c.ReadErr = err.Error()
+				c.mu.Unlock()
+				return 0, err
+			}
 			avail = c.flushed - c.readOff
 			n := avail
 			if n > len(p) {
@@ -579,7 +657,7 @@ func (b *respBody) Read(p []byte) (int, error) {
 			c.ReadToEOF = true
 			c.mu.Unlock()
 			if !s.dead.Load() {
-				s.Yield(fmt.Sprintf("net.read#eof c%d", c.ID))
+				s.IOPoint(fmt.Sprintf("net.read#eof c%d", c.ID), nil, c)
 			}
 			return 0, io.EOF
 		}
